@@ -110,7 +110,7 @@ def num(s, env=None):
     expr = s
     for k in sorted(env, key=len, reverse=True):
         expr = re.sub(r"(?:[A-Za-z_:]*::)?\b" + k + r"\b", str(env[k]), expr)
-    if re.fullmatch(r"[0-9xXa-fA-F+\-* ()]+", expr):
+    if re.fullmatch(r"[0-9xXa-fA-F+\-*<>|& ()]+", expr):
         return int(eval(expr))
     raise TranslateError(f"cannot evaluate constant expression: {s}")
 
@@ -137,6 +137,12 @@ def fc_of(pattern):
 
 
 STATUS = {"failed": {}, "defs": {}}   # filled by translate() / main(): which sections could not be regenerated
+# committed copies of the generated files for the unchanged tree: the text a section falls back to
+GOOD = os.path.join(os.path.dirname(os.path.abspath(__file__)), "gen_good")
+# sections whose regenerated text contradicted the model in a table theorem (set by check.py for a
+# second pass): they fall back to the committed text and are decided by behaviour, like sections
+# that cannot be regenerated at all
+DISPUTED = {x for x in os.environ.get("VERIF_DISPUTED", "").split(",") if x}
 
 
 def old_sections(path):
@@ -164,12 +170,14 @@ def translate():
     emit("import RodbusModel.Model.Codec")
     emit("namespace Rodbus.Gen")
     emit("")
-    old = old_sections(os.path.normpath(OUT))
+    old = old_sections(os.path.join(GOOD, "Tables.lean"))
     X = {}   # values shared between sections
 
     def section(name, fn):
         buf = []
         try:
+            if name in DISPUTED:
+                raise TranslateError("disputed: the regenerated table contradicts the model in a table theorem")
             fn(buf.append)
         except Exception as e:   # shape changed (TranslateError) or anything derived from it
             STATUS["failed"][name] = f"{type(e).__name__}: {e}"
@@ -865,9 +873,14 @@ def main():
         else:
             print("translate: unchanged")
     try:
+        if "ffi" in DISPUTED:
+            raise TranslateError("disputed: a regenerated C-ABI table contradicts the model in a table theorem")
         write_if_changed(FFI_OUT, translate_ffi())
     except Exception as e:
         STATUS["failed"]["ffi"] = f"{type(e).__name__}: {e}"
+        good = os.path.join(GOOD, "FfiTables.lean")
+        if os.path.exists(good):
+            write_if_changed(FFI_OUT, open(good).read())
     ffi_out = os.path.normpath(FFI_OUT)
     if os.path.exists(ffi_out):
         for m in re.finditer(r"^def (\w+)", open(ffi_out).read(), flags=re.M):
